@@ -3,11 +3,16 @@
 //! built for (cargo features `std` / `no_simd`, `-C target-feature`) and, for the std build,
 //! under the back-end level forced through hook H1 (`ppv_lite86::x86_64::verif::set_level`).
 //!
-//!   battery --bseed B --level L --shards N --out DIR [--thorough 1]
+//!   battery --bseed B --level L --shards N --out DIR [--thorough 1 | --mini 1]
+//!       The battery is: 3 selection probes, the MINI battery (`mini_battery`, own generator
+//!       state, so it is the same PREFIX of the quick, thorough and mini batteries and case index
+//!       i means the same input in every configuration), then the main battery. `--mini 1` stops
+//!       after the prefix: it is what the compile-time configurations (one cargo build each) and
+//!       the release profile run in the quick tier.
 //!       parent: runs `child` (this executable) and collects one result line per case; a child
 //!       that dies (SIGILL, SIGSEGV, abort) yields outcome `fault` for the case it was
 //!       computing and a new child continues with the next case.
-//!   child --bseed B --level L --from I [--thorough 1]
+//!   child --bseed B --level L --from I [--thorough 1 | --mini 1]
 //!
 //! Every case is written as a `dcase` of Run/Dispatch.v (model reference computed inside Coq)
 //! and into cases.json (index, kind, input, res, out, aux) for the cross-configuration
@@ -165,11 +170,101 @@ const VARS: [VarInfo; 3] = [
     VarInfo { name: "XChaCha8", v: 2, drounds: 4, nonce_len: 24 },
 ];
 
-fn battery(bseed: u64, thorough: bool) -> Vec<Inp> {
+/// volume of the battery: 0 quick, 1 thorough, 2 mini (selection probes + `mini_battery` only)
+#[derive(Clone, Copy, PartialEq, Eq)]
+enum Vol {
+    Quick,
+    Thorough,
+    Mini,
+}
+impl Vol {
+    fn of(a: &Args) -> Vol {
+        if a.u64("mini", 0) != 0 {
+            Vol::Mini
+        } else if a.u64("thorough", 0) != 0 {
+            Vol::Thorough
+        } else {
+            Vol::Quick
+        }
+    }
+    fn flag(self) -> [&'static str; 2] {
+        match self {
+            Vol::Quick => ["--thorough", "0"],
+            Vol::Thorough => ["--thorough", "1"],
+            Vol::Mini => ["--mini", "1"],
+        }
+    }
+    fn name(self) -> &'static str {
+        match self {
+            Vol::Quick => "quick",
+            Vol::Thorough => "thorough",
+            Vol::Mini => "mini",
+        }
+    }
+}
+
+/// The small fixed subset every configuration runs (also the compile-time configurations and the
+/// release profile in the quick tier). Own generator state: the same cases whatever follows.
+/// One case per dispatch site and per class the seeded faults lived in:
+///  * stream: buffered / narrow tail / wide(256) / wide+tail shapes; block counters next to every
+///    half-word boundary of the two counter words (2^16, 2^31, 2^32 inside a wide refill, 2^48, 2^57)
+///  * guts refill / refill4 at two counters (carry out of the low word, carry into the upper half-word of the high word)
+///  * BLAKE-224/256/384/512 and JH-224/256/384/512 at a one-block and a two-final-blocks length
+///  * F8 through Compressor (dispatch!) and through one directly instantiated Machine
+fn mini_battery(bseed: u64) -> Vec<Inp> {
+    let mut rng = Rng::new(bseed ^ 0xc03_0000_0031);
+    let mut v = Vec::new();
+    let b32 = 1u64 << 32;
+    // (variant, pos, len)
+    let shapes: &[(usize, u64, usize)] = &[
+        (0, 0, 65),
+        (1, 0, 257),
+        (2, 17, 48),
+        (0, 64 * 5 + 1, 63 + 256 + 64 + 5),
+        (1, 64 * ((1 << 16) - 2) + 3, 300),   // low counter word: 0x0000ffff -> 0x00010000 inside a wide refill
+        (1, 64 * ((1u64 << 31) - 2) + 9, 300), // low counter word gets its top bit (Ietf: 32-bit counter)
+        (0, 64 * (b32 - 2), 300),              // carry out of the low counter word inside a wide refill
+        (2, 64 * (b32 - 1) + 60, 70),          // the same carry on the narrow path (lazy refill, then one block)
+        (2, 64 * ((1u64 << 48) - 3) + 5, 450), // high counter word carries into its upper half-word
+        (0, 64 * ((1u64 << 57) - 2), 200),     // high counter word: 0x01ffffff -> 0x02000000
+    ];
+    for &(vi, pos, len) in shapes {
+        let key = rng.bytes(32);
+        let nonce = rng.bytes(VARS[vi].nonce_len);
+        let data = rng.bytes(len);
+        v.push(Inp::Stream { var: vi as u8, key, nonce, pos, data });
+    }
+    for (i, &ctr) in [0xffff_fffeu64, 0x0000_ffff_ffff_ffff].iter().enumerate() {
+        for wide in [false, true] {
+            let dr = [10u32, 4][(i + wide as usize) % 2];
+            v.push(Inp::Refill { wide, key: rng.bytes(32), ctr, id: rng.word64(), dr });
+        }
+    }
+    for &(bv, n) in &[(256u32, 55usize), (256, 65), (512, 111), (512, 129), (224, 56), (384, 240)] {
+        v.push(Inp::Blake { v: bv, msg: rng.bytes(n) });
+    }
+    for &(jv, n) in &[(256u32, 55usize), (256, 64), (512, 1), (512, 119), (224, 56), (384, 65)] {
+        v.push(Inp::Jh { v: jv, msg: rng.bytes(n) });
+    }
+    let mut s = vec![0u8; 128];
+    let mut b = vec![0u8; 64];
+    rng.fill(&mut s);
+    rng.fill(&mut b);
+    v.push(Inp::JhF8 { sel: 0, state: s.clone(), block: b.clone() });
+    v.push(Inp::JhF8 { sel: 1 + (bseed % 4) as u8, state: s, block: b });
+    v
+}
+
+fn battery(bseed: u64, vol: Vol) -> Vec<Inp> {
+    let thorough = vol == Vol::Thorough;
     let mut rng = Rng::new(bseed ^ 0xc03);
     let mut v = Vec::new();
     for mac in 0..3 {
         v.push(Inp::Sel { mac });
+    }
+    v.extend(mini_battery(bseed));
+    if vol == Vol::Mini {
+        return v;
     }
     // --- ChaCha public API. Buffer::try_apply_keystream: buffered bytes first, then 256-byte
     // chunks through refill4 (dispatch!), then the tail block by block through refill
@@ -245,7 +340,7 @@ fn battery(bseed: u64, thorough: bool) -> Vec<Inp> {
     for &bv in &[224u32, 256, 384, 512] {
         let ls = if bv <= 256 { l64 } else { l128 };
         for (i, &n) in ls.iter().enumerate() {
-            if !thorough && i >= 7 && (i + (bv as usize / 32)) % 2 == 1 {
+            if !thorough && i >= 7 && (i + (bv as usize / 32) + bseed as usize % 2) % 2 == 1 {
                 continue;
             }
             v.push(Inp::Blake { v: bv, msg: rng.bytes(n) });
@@ -253,9 +348,12 @@ fn battery(bseed: u64, thorough: bool) -> Vec<Inp> {
     }
     // --- JH digests (64-byte blocks, padding adds one or two blocks)
     let lj: &[usize] = &[0, 1, 55, 56, 63, 64, 65, 119, 128, 191];
-    for &jv in &[256u32, 512] {
+    for &jv in &[256u32, 512, 224, 384] {
         for (i, &n) in lj.iter().enumerate() {
-            if !thorough && i % 2 == (jv as usize / 256) % 2 && i > 1 {
+            if jv % 256 != 0 && !thorough && i % 3 != (bseed as usize + jv as usize / 32) % 3 {
+                continue; // JH-224/384 (same code, other IV / truncation): a third of the lengths in quick
+            }
+            if !thorough && i % 2 == (jv as usize / 256 + bseed as usize) % 2 && i > 1 {
                 continue;
             }
             v.push(Inp::Jh { v: jv, msg: rng.bytes(n) });
@@ -444,7 +542,14 @@ fn run_case(inp: &Inp) -> Outp {
                 s.refill(*dr, &mut b);
                 b.to_vec()
             };
-            (0, out, d_bytes(&state_d(&s)))
+            // aux = d words after (compared with the model) ++ the NEXT narrow block (compared across
+            // configurations only): the key rows b, c are not readable, a back end that clobbers
+            // them shows in what the object produces next
+            let mut aux = d_bytes(&state_d(&s));
+            let mut nb = [0x5au8; 64];
+            s.refill(*dr, &mut nb);
+            aux.extend_from_slice(&nb);
+            (0, out, aux)
         }
         Inp::Blake { v, msg } => (
             0,
@@ -459,7 +564,9 @@ fn run_case(inp: &Inp) -> Outp {
         Inp::Jh { v, msg } => (
             0,
             match v {
+                224 => jh_x86_64::Jh224::digest(msg).to_vec(),
                 256 => jh_x86_64::Jh256::digest(msg).to_vec(),
+                384 => jh_x86_64::Jh384::digest(msg).to_vec(),
                 _ => jh_x86_64::Jh512::digest(msg).to_vec(),
             },
             vec![],
@@ -504,9 +611,9 @@ fn run_child(a: &Args) {
     let bseed = a.u64("bseed", 1);
     let level = a.u64("level", 0) as u8;
     let from = a.u64("from", 0) as usize;
-    let thorough = a.u64("thorough", 0) != 0;
+    let vol = Vol::of(a);
     set_level(level);
-    let cases = battery(bseed, thorough);
+    let cases = battery(bseed, vol);
     let so = std::io::stdout();
     for (i, c) in cases.iter().enumerate().skip(from) {
         {
@@ -521,7 +628,7 @@ fn run_child(a: &Args) {
     }
 }
 
-fn collect(bseed: u64, level: u8, thorough: bool, n: usize) -> (Vec<Outp>, Vec<String>) {
+fn collect(bseed: u64, level: u8, vol: Vol, n: usize) -> (Vec<Outp>, Vec<String>) {
     let exe = std::env::current_exe().unwrap();
     let mut res: Vec<Outp> = Vec::with_capacity(n);
     let mut faults = Vec::new();
@@ -531,7 +638,7 @@ fn collect(bseed: u64, level: u8, thorough: bool, n: usize) -> (Vec<Outp>, Vec<S
         spawns += 1;
         assert!(spawns <= n + 1);
         let mut ch = std::process::Command::new(&exe)
-            .args(["child", "--bseed", &bseed.to_string(), "--level", &level.to_string(), "--from", &from.to_string(), "--thorough", if thorough { "1" } else { "0" }])
+            .args(["child", "--bseed", &bseed.to_string(), "--level", &level.to_string(), "--from", &from.to_string(), vol.flag()[0], vol.flag()[1]])
             .stdout(std::process::Stdio::piped())
             .stderr(std::process::Stdio::piped())
             .spawn()
@@ -589,14 +696,16 @@ fn run_battery(a: &Args) {
     let level = a.u64("level", 0) as u8;
     let shards = a.u64("shards", 16) as usize;
     let out = a.str("out", "/tmp/c03");
-    let thorough = a.u64("thorough", 0) != 0;
-    let cases = battery(bseed, thorough);
-    let (res, faults) = collect(bseed, level, thorough, cases.len());
+    let vol = Vol::of(a);
+    let cases = battery(bseed, vol);
+    let nmini = 3 + mini_battery(bseed).len();
+    let (res, faults) = collect(bseed, level, vol, cases.len());
     let host = host_mask();
     let mut coq = Vec::new();
     let mut js = Vec::new();
     let mut distinct = HashSet::new();
     let mut kinds = std::collections::BTreeMap::new();
+    let mut variants: std::collections::BTreeMap<String, usize> = std::collections::BTreeMap::new();
     let mut outcomes = [0usize; 4];
     let mut selected = Vec::new();
     for (i, (c, r)) in cases.iter().zip(res.iter()).enumerate() {
@@ -617,7 +726,7 @@ fn run_battery(a: &Args) {
                     if *wide { "refill4" } else { "refill" },
                     format!("{{\"key\":{},\"counter\":\"{}\",\"stream_id\":\"{}\",\"drounds\":{}}}", jstr(&hex(key)), ctr, id, dr),
                     format!("DRefill {} {} {} {} {} {} {}", blist(*wide), nlit(key), dlist(&d_bytes(&d0)), dr, r.res, nlit(&r.out),
-                        if r.aux.len() == 16 { dlist(&r.aux) } else { "[]".to_string() }),
+                        if r.aux.len() >= 16 { dlist(&r.aux[..16]) } else { "[]".to_string() }),
                     true,
                 )
             }
@@ -657,6 +766,21 @@ fn run_battery(a: &Args) {
             }
         };
         *kinds.entry(kind).or_insert(0usize) += 1;
+        match c {
+            Inp::Blake { v, .. } => *variants.entry(format!("blake{}", v)).or_insert(0usize) += 1,
+            Inp::Jh { v, .. } => *variants.entry(format!("jh{}", v)).or_insert(0usize) += 1,
+            Inp::Stream { var, pos, data, .. } => {
+                *variants.entry(VARS[*var as usize].name.to_string()).or_insert(0usize) += 1;
+                // counter-word boundary crossed by this apply (first..last block)
+                let (b0, b1) = (pos / 64, (pos + data.len() as u64 - 1) / 64);
+                for sh in [16u32, 31, 32, 48, 57] {
+                    if (b0 >> sh) != (b1 >> sh) {
+                        *variants.entry(format!("stream_crosses_block_2^{}", sh)).or_insert(0usize) += 1;
+                    }
+                }
+            }
+            _ => {}
+        }
         if nontrivial {
             distinct.insert((kind, input.clone()));
         }
@@ -678,9 +802,10 @@ fn run_battery(a: &Args) {
         .take(5)
         .map(|(i, r)| format!("{{\"what\":\"{} on a valid input\",\"case\":{}}}", if r.res == 2 { "panic" } else { "fault" }, js[i]))
         .collect();
+    let vd: Vec<String> = variants.iter().map(|(k, v)| format!("\"{}\":{}", k, v)).collect();
     println!(
-        "{{\"evaluations\":{},\"distinct_nontrivial\":{},\"kinds\":{{{}}},\"outcomes\":{{\"ok\":{},\"err\":{},\"panic\":{},\"fault\":{}}},\"build\":{{\"std\":{},\"no_simd\":{},\"target_feature_mask\":{},\"target_feature_level\":{}}},\"forced_level\":{},\"host_feature_mask\":{},\"selected\":{{{}}},\"child_deaths\":[{}],\"direct_failures\":[{}],\"samples\":[{}]}}",
-        cases.len(), distinct.len(), kd.join(","), outcomes[0], outcomes[1], outcomes[2], outcomes[3],
+        "{{\"evaluations\":{},\"distinct_nontrivial\":{},\"battery\":\"{}\",\"mini_prefix_cases\":{},\"classes\":{{{}}},\"kinds\":{{{}}},\"outcomes\":{{\"ok\":{},\"err\":{},\"panic\":{},\"fault\":{}}},\"build\":{{\"std\":{},\"no_simd\":{},\"target_feature_mask\":{},\"target_feature_level\":{}}},\"forced_level\":{},\"host_feature_mask\":{},\"selected\":{{{}}},\"child_deaths\":[{}],\"direct_failures\":[{}],\"samples\":[{}]}}",
+        cases.len(), distinct.len(), vol.name(), nmini, vd.join(","), kd.join(","), outcomes[0], outcomes[1], outcomes[2], outcomes[3],
         STD, NO_SIMD, tf_mask(), tf_level(), level, host, selected.join(","),
         faults.iter().map(|f| jstr(f)).collect::<Vec<_>>().join(","), direct.join(","),
         js.iter().skip(3).take(2).cloned().collect::<Vec<_>>().join(",")
